@@ -227,4 +227,34 @@ theorem hostStep_sync (n : Net) (s : State) (a : Action) (hs : Sync n s) : Sync 
 @[simp] theorem isNone_or_runningProc (r : Row) (o : Option Nat) : (o.isNone || PyRt.isRunningProc r o) = runsProc r o := by
   cases o <;> simp [PyRt.isRunningProc, runsProc]
 
+/-! ### generic loop / Boolean lemmas shared by the loader and generator ties -/
+
+theorem any_congr_mem {α : Type} (l : List α) (p q : α → Bool) (h : ∀ x ∈ l, p x = q x) : l.any p = l.any q := by
+  induction l with
+  | nil => rfl
+  | cons x xs ih =>
+    simp only [List.any_cons]
+    rw [h x (List.mem_cons_self ..), ih (fun y hy => h y (List.mem_cons_of_mem _ hy))]
+
+theorem all_congr_mem {α : Type} (l : List α) (p q : α → Bool) (h : ∀ x ∈ l, p x = q x) : l.all p = l.all q := by
+  induction l with
+  | nil => rfl
+  | cons x xs ih =>
+    simp only [List.all_cons]
+    rw [h x (List.mem_cons_self ..), ih (fun y hy => h y (List.mem_cons_of_mem _ hy))]
+
+theorem forEach_find {α β : Type} (l : List α) (p : α → Bool) (v : β) :
+    PyRt.forEach (β := β) l () (fun x _ => if p x then .ret v else .next ()) =
+      if l.any p then .ret v else .next () := by
+  induction l with
+  | nil => simp [PyRt.forEach]
+  | cons x xs ih =>
+    simp only [PyRt.forEach, List.any_cons]
+    by_cases hp : p x = true
+    · simp [hp]
+    · simp [hp, ih]
+
+theorem ite_not_false (c b : Bool) : (if (!c) = true then false else b) = (c && b) := by
+  cases c <;> rfl
+
 end NASim
